@@ -1,7 +1,8 @@
 """C29 - removing signatures removes them all and nothing else.
 G: TLC enumerates document structures (spec/SigRemove.tla): signature fields merged with / separate from their widgets, on
    1-3 pages, with and without /P, nested in non-terminal fields (depth <= 3), next to text fields, certification (/DocMDP)
-   and usage-rights (/UR3) entries, a link annotation; /Perms, /AcroForm, /Fields and /Kids stored inline or as indirect
+   and usage-rights (/UR3) entries; other annotations (links, text notes) as indirect references and as direct
+   dictionaries in /Annots, on the signature's page and on other pages; /Perms, /AcroForm, /Fields and /Kids stored inline or as indirect
    objects; unsigned documents with a stale /SigFlags (absent, 0, 1, 3) - each state is one case with the predicted post-state.
 R: harness/cmd/sig builds every case with the raw PDF emitter, runs the real api.RemoveSignaturesFile inside the recording
    sandbox, re-reads the output with pdfcpu and compares its object graph with the prediction; the real signed samples go
@@ -12,7 +13,7 @@ import vlib
 META = {
     "level": "model_checking",
     "text": "TLC enumerates every document structure of SigRemove.tla within the bounds (entry shapes x pages x signed x /P x "
-            "/Perms subsets x link x direct/indirect storage of /Perms, /AcroForm, /Fields, /Kids x stale /SigFlags of unsigned documents) together with the post-state RemoveSigs predicts; every state is built as a real PDF, run "
+            "/Perms subsets x other annotations (indirect / direct entries of /Annots) x direct/indirect storage of /Perms, /AcroForm, /Fields, /Kids x stale /SigFlags of unsigned documents) together with the post-state RemoveSigs predicts; every state is built as a real PDF, run "
             "through the real api.RemoveSignaturesFile and the re-read output compared: no signature dictionaries, signature fields, "
             "signature widgets, /Perms, /SigFlags; other fields, annotations and pages unchanged; unsigned documents refused with the "
             "no-signatures error without writing (os-call recorder). The 8 real signed samples are compared the same way.",
@@ -77,7 +78,7 @@ def run(ctx):
             ctx.report(key, "%s  [%d cases with this key]" % (m["what"], keys[key]), m)
         ev.cov(evaluations=total + nsamples, distinct_nontrivial=nontrivial, traces_validated_against_impl=total + nsamples,
                rule="every reachable state of SigRemove.tla within the cfg bounds (page count, sequence of top-level field entries, /Perms "
-                    "subset, link) is one case built as a PDF and run through the real RemoveSignaturesFile; non-trivial = distinct "
+                    "subset, other annotations, storage forms, stale /SigFlags) is one case built as a PDF and run through the real RemoveSignaturesFile; non-trivial = distinct "
                     "structures that contain a signature (outcome 'ok'); plus the real signed samples",
                exhaustive=True, replayed_cases=total, samples_checked=nsamples, unsigned_cases=nosig, mismatch_keys=keys)
         ev.assume("expected post-state comes from spec/SigRemove.tla (KeepFields / KeepAnnots / no signature objects, /Perms, /SigFlags)",
